@@ -23,35 +23,32 @@ def _recordable(fn):
 
 def call(fn, *a, **kw):
     """('ok', value) or ('exc', type_name, message) - never raises"""
-    slot = None
-    if RECORD is not None and _recordable(fn):
-        # reservoir sample of REC_PER_FN calls per function object over the WHOLE run (not just the first cases)
-        key = id(fn)
-        c = _per_fn.get(key, 0) + 1
-        _per_fn[key] = c
-        if c <= REC_PER_FN:
-            slot = -1
-        elif _rr.random() < REC_PER_FN / c:
-            slot = _rr.randrange(REC_PER_FN)
-        if slot is not None:
-            import copy
-            try:
-                a0, k0 = copy.deepcopy(a), copy.deepcopy(kw)
-            except Exception:
-                slot = None
+    recording = RECORD is not None and _recordable(fn)
+    if recording:
+        import copy
+        try:
+            a0, k0 = copy.deepcopy(a), copy.deepcopy(kw)   # before the call: the callee may modify its arguments
+        except Exception:
+            recording = False
     try:
         r = ("ok", fn(*a, **kw))
     except BaseException as e:  # noqa
         if isinstance(e, (KeyboardInterrupt, SystemExit, MemoryError)) or type(e).__name__ == "CaseTimeout":
             raise
         r = ("exc", type(e).__name__, str(e)[:200])
-    if slot is not None:
-        lst = RECORD.setdefault(id(fn), [])
-        item = (fn, a0, k0, repr(r))
-        if slot == -1 or slot >= len(lst):
-            lst.append(item)
-        else:
-            lst[slot] = item
+    if recording:
+        # reservoir sample per (function object, kind of outcome) over the WHOLE run: ordinary values, None results and
+        # each exception type have their own quota, so that rare early-return / error paths are represented too
+        kind = r[1] if r[0] == "exc" else ("none" if r[1] is None else "value")
+        key = (id(fn), kind)
+        c = _per_fn.get(key, 0) + 1
+        _per_fn[key] = c
+        cap = REC_PER_FN if kind == "value" else max(8, REC_PER_FN // 4)
+        lst = RECORD.setdefault(key, [])
+        if c <= cap:
+            lst.append((fn, a0, k0, repr(r)))
+        elif _rr.random() < cap / c:
+            lst[_rr.randrange(len(lst))] = (fn, a0, k0, repr(r))
     return r
 
 
